@@ -71,6 +71,8 @@ assert all(len(k) == len(v) for k, v in DEEP_BYTES.items())
 REPL += [W.N(k[1:].decode()) for k in DEEP_BYTES]
 REPL_NAMES += ["array nested %d deep" % DEEP, "dictionary nested %d deep" % DEEP]
 DEEP_R = (len(REPL) - 2, len(REPL) - 1)
+REPL += [2 ** 31 - 1]
+REPL_NAMES += ["2^31-1"]
 TRAILER_REPL += REPL[16:]
 TRAILER_REPL_NAMES = REPL_NAMES[:16] + ["own startxref offset", "7"] + REPL_NAMES[16:]
 LZW_CODE_VALUES = [0, 255, 256, 257, 258, 259, 300, 511, 512, 4095]
